@@ -232,6 +232,9 @@ def fresh_seq(st, n, elem_shape, hint, measure=None):
                         return mk_int(f(*zs(idx), zint(k)))
 
                     row.cpsum[c] = cps
+                # identity of the row: (the nested list's name, the row's index terms) -- rows are immutable values, so a
+                # deterministic function of a row is a function of this identity (protocol.encode_arg)
+                row.row_id = (f"{base}{path}", tuple(zs(idx)))
                 return row
 
             return g
